@@ -1,14 +1,131 @@
 package main
 
-// Rules of C02 added after the rounds of independently authored breaking changes (DESIGN 11.6, 11.7).
+// C02.P9 — every Route carries a Glob that is the result of a successful glob.Compile (the glob matcher dereferences
+// it). The stores to Route.Glob are found in the whole package route; the stored value is followed through helpers
+// (a compile wrapper that returns (glob, error), a route constructor that receives the compiled glob as a parameter).
 
 import (
+	"go/token"
 	"strings"
 
 	"golang.org/x/tools/go/ssa"
 )
 
-func runC02P9(c *Ctx) {
+// c02isGlobCompile: the library call that compiles a pattern and reports failure as an error.
+func c02isGlobCompile(call *ssa.Call) bool {
+	return strings.HasSuffix(calleeName(&call.Call), "gobwas/glob.Compile")
+}
+
+// validGlob: at block at, v is the glob of a glob.Compile call that returned no error.
+func (x *c02pubs) validGlob(v ssa.Value, at *ssa.BasicBlock, depth int, seen map[ssa.Value]bool) bool {
+	v = c02strip(v)
+	if isNilConst(v) || depth > 4 {
+		return false
+	}
+	if seen[v] {
+		return true
+	}
+	seen[v] = true
+	errNilAt := func(call *ssa.Call, at *ssa.BasicBlock) bool {
+		return at != nil && knownNil(at, func(o ssa.Value) bool {
+			e, ok := o.(*ssa.Extract)
+			return ok && e.Tuple == ssa.Value(call) && e.Index == 1
+		})
+	}
+	switch y := v.(type) {
+	case *ssa.Extract:
+		call, isCall := y.Tuple.(*ssa.Call)
+		if !isCall || y.Index != 0 || call.Call.Signature().Results().Len() != 2 {
+			return false
+		}
+		if c02isGlobCompile(call) {
+			return errNilAt(call, at)
+		}
+		sc := call.Call.StaticCallee()
+		if sc == nil || !isRepoFn(sc) || len(sc.Blocks) == 0 || typeStr(sc.Signature.Results().At(1).Type()) != "error" {
+			return false
+		}
+		if !errNilAt(call, at) {
+			return false
+		}
+		// a compile wrapper: every return with a nil error carries a valid glob
+		sc = unwrap(sc)
+		ok, n := true, 0
+		eachInstr(sc, func(i ssa.Instruction) {
+			r, isR := i.(*ssa.Return)
+			if !isR || len(r.Results) != 2 {
+				return
+			}
+			if inner, isE := r.Results[0].(*ssa.Extract); isE {
+				if e1, isE1 := r.Results[1].(*ssa.Extract); isE1 && e1.Tuple == inner.Tuple && inner.Index == 0 && e1.Index == 1 {
+					// return glob.Compile(p): the caller's err == nil test is the test of this call
+					if ic, isC := inner.Tuple.(*ssa.Call); isC && c02isGlobCompile(ic) {
+						n++
+						return
+					}
+				}
+			}
+			if !c02defNil(r.Results[1], r.Block(), map[ssa.Value]bool{}) {
+				return // error return: the caller does not use the glob
+			}
+			n++
+			if !x.validGlob(r.Results[0], r.Block(), depth+1, seen) {
+				ok = false
+			}
+		})
+		return ok && n > 0
+	case *ssa.Call:
+		sc := y.Call.StaticCallee()
+		if sc == nil || !isRepoFn(sc) || len(sc.Blocks) == 0 || sc.Signature.Results().Len() != 1 {
+			return false
+		}
+		sc = unwrap(sc)
+		ok, n := true, 0
+		eachInstr(sc, func(i ssa.Instruction) {
+			if r, isR := i.(*ssa.Return); isR && len(r.Results) == 1 {
+				n++
+				if !x.validGlob(r.Results[0], r.Block(), depth+1, seen) {
+					ok = false
+				}
+			}
+		})
+		return ok && n > 0
+	case *ssa.Phi:
+		for k, e := range y.Edges {
+			if !x.validGlob(e, y.Block().Preds[k], depth, seen) {
+				return false
+			}
+		}
+		return true
+	case *ssa.Parameter:
+		return x.liftParam(y, depth, func(arg ssa.Value, blk *ssa.BasicBlock) bool {
+			return x.validGlob(arg, blk, depth+1, seen)
+		})
+	case *ssa.UnOp:
+		if y.Op != token.MUL {
+			return false
+		}
+		// the Glob of an existing route (a copy keeps the invariant)
+		if _, ok := fieldOf(y.X, "route.Route", "Glob"); ok {
+			return true
+		}
+		if a, isAlloc := y.X.(*ssa.Alloc); isAlloc {
+			n := 0
+			for _, r := range *a.Referrers() {
+				if st, ok := r.(*ssa.Store); ok && st.Addr == a {
+					n++
+					if !x.validGlob(st.Val, st.Block(), depth, seen) {
+						return false
+					}
+				}
+			}
+			return n > 0
+		}
+	}
+	return false
+}
+
+func runC02P9(c *Ctx, x *c02pubs) {
 	n := 0
 	for _, f := range c.AllFns {
 		if rootPkg(f) != c.spkg("route") {
@@ -23,18 +140,11 @@ func runC02P9(c *Ctx) {
 				return
 			}
 			n++
-			// value: result #0 of glob.Compile, stored on the err == nil edge of that call
-			okV := false
-			if e, isE := st.Val.(*ssa.Extract); isE && e.Index == 0 {
-				if call, isC := e.Tuple.(*ssa.Call); isC && strings.HasSuffix(calleeName(&call.Call), "glob.Compile") {
-					okV = knownNil(st.Block(), func(v ssa.Value) bool { x, ok := v.(*ssa.Extract); return ok && x.Tuple == call && x.Index == 1 })
-				}
-			}
-			c.check("C02.P9", fnKey(f)+"|Route.Glob is a successfully compiled pattern", st.Pos(), okV,
+			c.check("C02.P9", fnKey(f)+"|Route.Glob is a successfully compiled pattern", st.Pos(), x.validGlob(st.Val, st.Block(), 0, map[ssa.Value]bool{}),
 				"the glob matcher calls r.Glob.Match on every route of the looked-up host; a route whose Glob is not the result of a glob.Compile that succeeded (err == nil edge) makes lookups under proxy.matcher=glob dereference nil — a route configuration text then crashes request handling")
 		})
 	}
-	c.atLeast("C02.P9", "stores to Route.Glob", n, 2)
+	c.atLeast("C02.P9", "stores to Route.Glob", n, 1)
 	// Route literals must set it at all
 	for _, f := range c.AllFns {
 		if rootPkg(f) != c.spkg("route") {
@@ -48,5 +158,3 @@ func runC02P9(c *Ctx) {
 		}
 	}
 }
-
-// ---- C04.R6: a weight computed by subtraction is clamped at zero ---------------------------------------
